@@ -877,6 +877,7 @@ class SDMXFullSettings(SDMXBaseSettings):
                 except KeyError:
                     raise NotImplementedError("Only support ratio=1,1.5,2, pow=0,1,2")
                 norms.append(DensityNormalizer(1.0 / u, power=(-1 - n / 3.0)))
+        for ratio in self.ratios:
             for n, rdr in self.iterate_l1_terms(ratio):
                 try:
                     u = known_dict[ratio, n, rdr]
